@@ -1,5 +1,6 @@
 import Chain33Model.Proofs.C11
 import Chain33Model.Proofs.C11Local
+import Chain33Model.Proofs.C11Block
 /-!
 C11 — failed transactions leave only their fee behind.  Property theorems only.
 
@@ -294,5 +295,265 @@ theorem rollbackOld_leaks_regression :
     (((l.begin.set k [7]).1.rollbackOld.begin.commit).remote.cview k = some [7]) ∧
     (((l.begin.set k [7]).1.rollback.begin.commit).remote.cview k = none) := by
   decide
+
+
+namespace Witness
+/-- "LODB-vfb-k" -/
+def kB : Bytes := [76, 79, 68, 66, 45, 118, 102, 98, 45, 107]
+def env0 : Env := { cfg := { isPara := false, title := [], forkExecKey := true },
+                    allowUser := synthAllowUser, registry := fullRegistry }
+end Witness
+
+open LocalDB in
+/-- **rollback_exact** — the two single-transaction theorems about *the same* fee-only run: one `stF`,
+whose StateDB and LocalDB are both observationally equal to those left by the failed transaction. -/
+theorem rollback_exact (env : Env) (hfr : env.forkExecRollback = true)
+    (st : St) (hinv : Inv st.ldb) (hidle : st.ldb.intx = false)
+    (tx : Tx) (r : Receipt) (obs : List Obs) (st' : St)
+    (h : execTx env st tx = .done [r] [obs] st') (hf : r.failed = true) :
+    ∃ rF stF, execTx env st (feeOnly tx) = .done [rF] [[]] stF ∧ rF.kv = r.kv ∧ rF.ty = r.ty ∧
+      (∀ ops, runS st'.sdb ops = runS stF.sdb ops) ∧ (∀ ts, runL st'.ldb ts = runL stF.ldb ts) := by
+  obtain ⟨rF, stF, h1, h2, h3, h4⟩ := state_rollback_exact env hfr st tx r obs st' h hf
+  obtain ⟨rF', stF', h1', h5⟩ := local_rollback_exact env hfr st hinv hidle tx r obs st' h hf
+  rw [h1] at h1'
+  injection h1' with _ _ e3
+  subst e3
+  exact ⟨rF, stF, h1, h2, h3, h4, h5⟩
+
+open LocalDB in
+/-- **group_local_rollback_exact** — local data of a failed group: every later sequence of local
+transactions observes exactly what it observes right after the group fee was charged (`st1`; charging
+the fee does not touch the LocalDB, so this is the LocalDB before the group).  `LClean`: the LocalDB
+as block execution leaves it between units (`initSt_lclean`, `execUnit_lclean`). -/
+theorem group_local_rollback_exact (env : Env) (hfr : env.forkExecRollback = true)
+    (st : St) (hclean : LClean st.ldb)
+    (head : Tx) (members : List Tx) (feelog : Receipt) (st1 : St)
+    (rs : List Receipt) (obs : List (List Obs)) (st' : St)
+    (hfee : execFee env st head = .ok feelog st1)
+    (h : execTxGroup env st (head :: members) = .done rs obs st')
+    (hf : ∃ r ∈ rs, r.failed = true) :
+    ∀ ts, runL st'.ldb ts = runL st1.ldb ts := by
+  have hnf := execFee_ok_not_failed env st head feelog st1 hfee
+  have hl := execFee_ldb env st head feelog st1 hfee
+  have c1 : LClean st1.ldb := by rw [hl]; exact hclean
+  have hb := begin_txf_clean env hfr st1 c1
+  have hroll : ∀ s : St, (s.rollback env).ldb = s.ldb.rollback := fun s => by simp [St.rollback, hfr]
+  have fin : ∀ s : St, TxF st1.ldb false false s.ldb → ∀ ts, runL (s.rollback env).ldb ts = runL st1.ldb ts := by
+    intro s t ts
+    obtain ⟨ia, xa, ea⟩ := TxF.rollback t
+    rw [hroll]
+    exact LEq.runL_eq ⟨by rw [ea, c1.erase_eq], ia, c1.inv⟩ xa ts
+  unfold execTxGroup at h
+  simp only at h
+  rw [hfee] at h
+  simp only at h
+  have tA := execTxOne_txf_ff env (st1.begin env) feelog head _ hb
+  cases hA : execTxOne env (st1.begin env) feelog head with
+  | blockPanic => rw [hA] at h; cases h
+  | failed r0 st2 o0 =>
+    rw [hA] at h tA
+    simp only at h
+    injection h with _ _ h3
+    subst h3
+    exact fin st2 tA
+  | ok r0 st2 o0 =>
+    rw [hA] at h tA
+    simp only at h
+    have hr0 := execTxOne_ok_not_failed env _ feelog head _ _ _ hnf hA
+    have tM := execMembers_txf_ff env members st2 [] [] _ tA
+    cases hM : execMembers env members st2 [] [] with
+    | blockPanic => rw [hM] at h; cases h
+    | ok rsM obsM st3 =>
+      rw [hM] at h
+      simp only at h
+      injection h with h1 _ _
+      subst h1
+      have hall := execMembers_ok_not_failed env members st2 [] [] _ _ _ (by simp) hM
+      obtain ⟨r, hm, hfr'⟩ := hf
+      rcases List.mem_cons.1 hm with hm | hm
+      · subst hm; rw [hr0] at hfr'; cases hfr'
+      · rw [hall r hm] at hfr'; cases hfr'
+    | failed nb r obsM st3 =>
+      rw [hM] at h tM
+      simp only at h
+      injection h with _ _ h3
+      subst h3
+      exact fin st3 tM
+
+/-- satisfiability of the hypotheses of `group_all_or_fee` / `group_local_rollback_exact`: the head (vfa)
+succeeds, the second member (vfb) writes state and a local key, then fails. -/
+example :
+    let env : Env := Witness.env0
+    let head : Tx := { acctKey := [1], fee := 2, execer := [118, 102, 97],
+                       execOps := [.setS [109, 97, 118, 108, 45, 118, 102, 97, 45, 107] [9]], localOps := [] }
+    let m2 : Tx := { acctKey := [1], fee := 0, execer := [118, 102, 98],
+                     execOps := [.setS [109, 97, 118, 108, 45, 118, 102, 98, 45, 107] [8]],
+                     localOps := [.hidL Witness.kB [7], .fail] }
+    let st := initSt [([1], .acct 10)] []
+    env.forkExecRollback = true ∧ env.forkResetTx0 = true ∧ LClean st.ldb ∧
+    ∃ feelog st1 rs obs st', execFee env st head = .ok feelog st1 ∧
+      execTxGroup env st [head, m2] = .done rs obs st' ∧ ∃ r ∈ rs, r.failed = true := by
+  refine ⟨rfl, rfl, initSt_lclean _ _, _, _, _, _, _, rfl, rfl, ?_⟩
+  decide
+
+
+/-! ### the same, observed through block execution itself
+
+`execBlock_congr` (Proofs/C11Block): two executor states whose StateDBs are `SEq` and whose LocalDBs are
+`LEq` cannot be told apart by *any* continuation of the block — `execBlock` itself, with `checkKV`
+reading the written-key list, the access flags, interleaved state and local operations, fees, groups:
+same receipts, same observations of every later transaction. -/
+
+open LocalDB in
+/-- **rollback_exact_block** — the property text, literally: after a failed transaction, the rest of the
+block (`us`, any units) produces the same receipts and every later transaction observes the same
+state and local reads as after the transaction that only paid its fee. -/
+theorem rollback_exact_block (env : Env) (hfr : env.forkExecRollback = true)
+    (st : St) (hinv : Inv st.ldb) (hidle : st.ldb.intx = false)
+    (tx : Tx) (r : Receipt) (obs : List Obs) (st' : St)
+    (h : execTx env st tx = .done [r] [obs] st') (hf : r.failed = true) :
+    ∃ rF stF, execTx env st (feeOnly tx) = .done [rF] [[]] stF ∧ rF.kv = r.kv ∧ rF.ty = r.ty ∧
+      ∀ us rs0 obs0, blockView (execBlock env us st' rs0 obs0) = blockView (execBlock env us stF rs0 obs0) := by
+  have he : (feeOnly tx).execer = tx.execer := rfl
+  have hfee : execFee env st (feeOnly tx) = execFee env st tx := rfl
+  have same : ∀ s : St, Inv s.ldb → s.ldb.intx = false → StIdle s s :=
+    fun s i x => ⟨SEq.refl _, ⟨rfl, i, i⟩, x⟩
+  unfold execTx at h ⊢
+  rw [he, hfee]
+  split at h
+  · rename_i hname
+    simp only [hname, if_true]
+    injection h with h1 h2 h3
+    injection h1 with h1 _
+    subst h1; subst h3
+    exact ⟨_, _, rfl, rfl, rfl, fun us rs0 obs0 => execBlock_congr env hfr us _ _ rs0 obs0 (same _ hinv hidle)⟩
+  · rename_i hname
+    simp only [hname, if_false]
+    cases hfe : execFee env st tx with
+    | panic => rw [hfe] at h; cases h
+    | err e st1 =>
+      rw [hfe] at h
+      simp only at h ⊢
+      injection h with h1 h2 h3
+      injection h1 with h1 _
+      subst h1; subst h3
+      have hl := execFee_err_ldb env st tx e st1 hfe
+      exact ⟨_, _, rfl, rfl, rfl, fun us rs0 obs0 => execBlock_congr env hfr us _ _ rs0 obs0
+        (same _ (by rw [hl]; exact hinv) (by rw [hl]; exact hidle))⟩
+    | ok feelog st1 =>
+      rw [hfe] at h
+      simp only at h ⊢
+      have hl := execFee_ldb env st tx feelog st1 hfe
+      have hb := begin_txf env hfr st1 (by rw [hl]; exact hinv) (by rw [hl]; exact hidle)
+      have hbegin : (st1.begin env).sdb.intx = true := by simp [St.begin, hfr, StateDB.begin]
+      have hp0 : Pres (st1.begin env).sdb (st1.begin env).sdb := Pres.refl hbegin
+      cases hA : execTxOne env (st1.begin env) feelog tx with
+      | blockPanic => rw [hA] at h; cases h
+      | ok r2 st2 obs2 =>
+        rw [hA] at h
+        simp only at h
+        injection h with h1 _ _
+        injection h1 with h1 _
+        subst h1
+        have := execTxOne_ok_not_failed env _ feelog tx _ _ _ (execFee_ok_not_failed env st tx feelog st1 hfe) hA
+        rw [this] at hf; cases hf
+      | failed r2 st2 obs2 =>
+        rw [hA] at h
+        simp only at h
+        injection h with h1 _ h3
+        injection h1 with h1 _
+        subst h1; subst h3
+        cases hd : loadDriver env tx.execer with
+        | none =>
+          obtain ⟨_, _, hok⟩ := execTxOne_none_ok env (st1.begin env) feelog tx hd
+          rw [hok] at hA; cases hA
+        | some d =>
+          obtain ⟨stX, hB⟩ := execTxOne_feeOnly env (st1.begin env) feelog tx d hd
+          rw [hB]
+          simp only
+          obtain ⟨e, hr⟩ := execTxOne_failed_shape env _ feelog tx _ _ _ hA
+          refine ⟨_, _, rfl, by rw [hr]; rfl, by rw [hr]; rfl, fun us rs0 obs0 => ?_⟩
+          have pA : Pres (st1.begin env).sdb st2.sdb := by
+            have := execTxOne_pres env (st1.begin env) feelog tx _ hp0
+            rw [hA] at this; exact this
+          have pB : Pres (st1.begin env).sdb stX.sdb := by
+            have := execTxOne_pres env (st1.begin env) feelog (feeOnly tx) _ hp0
+            rw [hB] at this; exact this
+          have tA := execTxOne_txf env (st1.begin env) feelog tx _ _ _ hb
+          have tB := execTxOne_txf env (st1.begin env) feelog (feeOnly tx) _ _ _ hb
+          rw [hA] at tA
+          rw [hB, he] at tB
+          obtain ⟨ia, xa, ea⟩ := TxF.rollback tA
+          obtain ⟨ib, _, eb⟩ := TxF.rollback tB
+          have hid : StIdle (st2.rollback env) (stX.rollback env) := by
+            simp only [St.rollback, hfr, if_true]
+            exact ⟨pA.rollback_SEq.trans pB.rollback_SEq.symm, ⟨by rw [ea, eb], ia, ib⟩, xa⟩
+          exact execBlock_congr env hfr us _ _ rs0 obs0 hid
+
+open LocalDB in
+/-- **group_rollback_exact_block** — a failed group: the rest of the block behaves exactly as from the
+state right after the group fee was charged (`st1`, its StateDB out of any transaction). -/
+theorem group_rollback_exact_block (env : Env) (hfr : env.forkExecRollback = true)
+    (st : St) (hclean : LClean st.ldb)
+    (head : Tx) (members : List Tx) (feelog : Receipt) (st1 : St)
+    (rs : List Receipt) (obs : List (List Obs)) (st' : St)
+    (hfee : execFee env st head = .ok feelog st1)
+    (h : execTxGroup env st (head :: members) = .done rs obs st')
+    (hf : ∃ r ∈ rs, r.failed = true) :
+    ∀ us rs0 obs0, blockView (execBlock env us st' rs0 obs0) =
+      blockView (execBlock env us { st1 with sdb := st1.sdb.resetTx } rs0 obs0) := by
+  have hnf := execFee_ok_not_failed env st head feelog st1 hfee
+  have hl := execFee_ldb env st head feelog st1 hfee
+  have c1 : LClean st1.ldb := by rw [hl]; exact hclean
+  have hb := begin_txf_clean env hfr st1 c1
+  have hbegin : (st1.begin env).sdb.intx = true := by simp [St.begin, hfr, StateDB.begin]
+  have hp0 : Pres (st1.begin env).sdb (st1.begin env).sdb := Pres.refl hbegin
+  have hreset : (st1.begin env).sdb.resetTx = st1.sdb.resetTx := by
+    simp [St.begin, hfr, StateDB.begin, StateDB.resetTx]
+  have fin : ∀ s : St, TxF st1.ldb false false s.ldb → Pres (st1.begin env).sdb s.sdb →
+      StIdle (s.rollback env) { st1 with sdb := st1.sdb.resetTx } := by
+    intro s t p
+    obtain ⟨ia, xa, ea⟩ := TxF.rollback t
+    simp only [St.rollback, hfr, if_true]
+    exact ⟨by rw [← hreset]; exact p.rollback_SEq, ⟨by rw [ea, c1.erase_eq], ia, c1.inv⟩, xa⟩
+  intro us rs0 obs0
+  unfold execTxGroup at h
+  simp only at h
+  rw [hfee] at h
+  simp only at h
+  have tA := execTxOne_txf_ff env (st1.begin env) feelog head _ hb
+  have pA := execTxOne_pres env (st1.begin env) feelog head _ hp0
+  cases hA : execTxOne env (st1.begin env) feelog head with
+  | blockPanic => rw [hA] at h; cases h
+  | failed r0 st2 o0 =>
+    rw [hA] at h tA pA
+    simp only at h
+    injection h with _ _ h3
+    subst h3
+    exact execBlock_congr env hfr us _ _ rs0 obs0 (fin st2 tA pA)
+  | ok r0 st2 o0 =>
+    rw [hA] at h tA pA
+    simp only at h
+    have hr0 := execTxOne_ok_not_failed env _ feelog head _ _ _ hnf hA
+    have tM := execMembers_txf_ff env members st2 [] [] _ tA
+    have pM := execMembers_pres env members st2 [] [] _ pA
+    cases hM : execMembers env members st2 [] [] with
+    | blockPanic => rw [hM] at h; cases h
+    | ok rsM obsM st3 =>
+      rw [hM] at h
+      simp only at h
+      injection h with h1 _ _
+      subst h1
+      have hall := execMembers_ok_not_failed env members st2 [] [] _ _ _ (by simp) hM
+      obtain ⟨r, hm, hfr'⟩ := hf
+      rcases List.mem_cons.1 hm with hm | hm
+      · subst hm; rw [hr0] at hfr'; cases hfr'
+      · rw [hall r hm] at hfr'; cases hfr'
+    | failed nb r obsM st3 =>
+      rw [hM] at h tM pM
+      simp only at h
+      injection h with _ _ h3
+      subst h3
+      exact execBlock_congr env hfr us _ _ rs0 obs0 (fin st3 tM pM)
 
 end C11
